@@ -240,6 +240,14 @@ func (r *FeatureLocal) ApproveOrDenyWrite(msg *api.Message, err model.ErrorType)
 
 	ski := msg.DeviceRemote.Ski()
 
+	// a message of an earlier connection of this SKI must not decide a write of
+	// the current connection that happens to use the same message counter
+	if device := r.Device(); device != nil {
+		if current := device.RemoteDeviceForSki(ski); current != nil && current != msg.DeviceRemote {
+			return
+		}
+	}
+
 	r.muxResponseCB.Lock()
 	timer, ok := r.pendingWriteApprovals[ski][*msg.RequestHeader.MsgCounter]
 	count := len(r.writeApprovalCallbacks)
